@@ -167,7 +167,7 @@ var _ = ws.StateServerSide
 //@   assigns *c
 
 //@ func CipherReader.Read
-//@   props C02 C04
+//@   props C02 C04 C15 C16
 //@   requires [stream] streamOK(c.r) && c.r != nil
 //@   requires [pos]    0 <= c.pos && c.pos <= 1<<62
 //@   requires [sep]    notPartOf(p, c)
@@ -285,7 +285,7 @@ func lemmaReserve(state ws.State, size int, pay int) bool {
 //@   assigns nothing
 
 //@ func Writer.Reset
-//@   props C18 C06
+//@   props C18 C06 C13
 //@   requires [room] len(w.raw) > specReserve(state, len(w.raw)) && len(w.raw) <= 1<<47 && op < 16
 //@   ensures  [asnew] w.dest == dest && w.state == state && w.op == op && sameSlice(w.raw, old(w.raw))
 //@   ensures  [zero]  w.n == 0 && !w.dirty && w.fseq == 0 && len(w.extensions) == 0 && !w.noFlush && w.err == nil
@@ -293,7 +293,7 @@ func lemmaReserve(state ws.State, size int, pay int) bool {
 //@   assigns *w
 
 //@ func Writer.ResetOp
-//@   props C18
+//@   props C18 C06 C13
 //@   ensures [op]   w.op == op && w.n == 0 && !w.dirty && w.fseq == 0
 //@   ensures [keep] w.noFlush == old(w.noFlush) && len(w.extensions) == old(len(w.extensions)) && w.dest == old(w.dest) && w.state == old(w.state)
 //@   assigns w.op, w.n, w.dirty, w.fseq
@@ -396,7 +396,7 @@ func writerReady(w *Writer) bool {
 func clientSide(s ws.State) bool { return s&ws.StateClientSide != 0 }
 
 //@ func Writer.FlushFragment
-//@   props C06 C16
+//@   props C06 C16 C13
 //@   requires [ready] writerReady(w)
 //@   ensures  [noop]  old(w.n) == 0 || old(w.err) != nil ==> outCalls(w.dest) == old(outCalls(w.dest)) && outLen(w.dest) == old(outLen(w.dest)) && result == old(w.err) && w.n == old(w.n) && w.fseq == old(w.fseq) && w.err == old(w.err)
 //@   ensures  [one]   old(w.n) > 0 && old(w.err) == nil ==> outCalls(w.dest) == old(outCalls(w.dest))+1 && w.n == 0 && w.fseq == old(w.fseq)+1 && w.err == result
@@ -410,7 +410,7 @@ func clientSide(s ws.State) bool { return s&ws.StateClientSide != 0 }
 //@   assigns w.err, w.n, w.fseq, bytes(w.raw), outstream(w.dest)
 
 //@ func Writer.Flush
-//@   props C06 C16 C08
+//@   props C06 C16 C08 C13
 //@   requires [ready] writerReady(w)
 //@   ensures  [noop]  (!old(w.dirty) && old(w.n) == 0) || old(w.err) != nil ==> outCalls(w.dest) == old(outCalls(w.dest)) && outLen(w.dest) == old(outLen(w.dest)) && result == old(w.err) && w.n == old(w.n) && w.fseq == old(w.fseq) && w.err == old(w.err) && w.dirty == old(w.dirty)
 //@   ensures  [one]   (old(w.dirty) || old(w.n) > 0) && old(w.err) == nil ==> outCalls(w.dest) == old(outCalls(w.dest))+1 && w.n == 0 && w.fseq == 0 && !w.dirty && w.err == result
@@ -703,7 +703,7 @@ func utf8FoldStep(s int, b byte) int { return specUTF8Step(s, b) }
 //@   assigns *u
 
 //@ func UTF8Reader.Read
-//@   props C07 C04
+//@   props C07 C04 C15 C16
 //@   requires [src]   u.Source != nil && streamOK(u.Source) && validUTF8State(u.state) && u.state != 12 && notPartOf(p, u) && inErr(u.Source) != ErrInvalidUTF8
 //@   ensures  [n]     0 <= n && n <= len(p)
 //@   ensures  [ok]    err != ErrInvalidUTF8 ==> absUTF8(u.state) == utf8Fold(absUTF8(old(u.state)), p, n) && forall(0, n+1, func(j int) bool { return utf8Fold(absUTF8(old(u.state)), p, j) != 8 })
@@ -872,7 +872,7 @@ func iteReader(c bool, a, b io.Reader) io.Reader {
 // r.frame (limit, unmask, UTF-8) is treated as an arbitrary io.Reader that may also move the
 // payload counter and the UTF-8 state; what is proved is what Read makes of its answer.
 //@ func Reader.Read
-//@   props C04 C07 C16 C18
+//@   props C04 C07 C16 C18 C05 C15
 //@   call Reader.fragmented inline
 //@   invoke io.Reader.Read assigns (&r.raw).N, (&r.utf8).state, (&r.utf8).codep, (&r.utf8).accepted, r.cr.pos, bytes(p), instream(r.Source)
 //@   invoke io.Reader.Read ensures [rejstate] inErr(r.Source) != ErrInvalidUTF8 && c_err == ErrInvalidUTF8 ==> r.utf8.state == 12
@@ -893,7 +893,7 @@ func iteReader(c bool, a, b io.Reader) io.Reader {
 
 // Discard skips the rest of the current message, fragment by fragment, and leaves the reader idle.
 //@ func Reader.Discard
-//@   props C04 C16 C18
+//@   props C04 C16 C18 C05 C15
 //@   call Reader.fragmented inline
 //@   requires [inv]  invReader(r) && streamOK(r.Source) && len(r.Extensions) == 0 && r.OnContinuation == nil && r.frame != nil
 //@   ensures  [idle] idleReader(r) && r.Source == old(r.Source)
@@ -911,10 +911,11 @@ func iteReader(c bool, a, b io.Reader) io.Reader {
 // HandleClose (C08): the decisions around a received close frame. The echo path writes p[:2] through
 // a ControlWriter whose buffer is p itself; that call is abstracted (its content is not proved here).
 //@ func ControlHandler.HandleClose
-//@   props C08
+//@   props C08 C15 C17
 //@   call WriteHeader inline
 //@   call ControlWriter.Write havoc
 //@   call ControlWriter.Flush havoc
+//@   callsite pbytes.Put requires [ownreason] len(reason) == 0 || !strViewOf(reason, p)
 //@   requires [hdr]  c.Dst != nil && c.Src != nil && streamOK(c.Src) && 0 <= h.Length && h.Length <= 125
 //@   requires [plain] c.DisableSrcCiphering || c.State&ws.StateServerSide == 0
 //@   requires [srcerr] !dynTypeIs(inErr(c.Src), "wsutil.ClosedError")
@@ -925,7 +926,7 @@ func iteReader(c bool, a, b io.Reader) io.Reader {
 //@   ensures  [never-nil] result != nil
 
 //@ func ControlHandler.HandlePing
-//@   props C08
+//@   props C08 C15 C17
 //@   call WriteHeader inline
 //@   call io.Copy havoc
 //@   call ControlWriter.Flush havoc
@@ -934,13 +935,13 @@ func iteReader(c bool, a, b io.Reader) io.Reader {
 //@   ensures  [emptykeep] h.Length == 0 ==> forall(0, old(outLen(c.Dst)), func(k int) bool { return outByte(c.Dst, k) == old(outByte(c.Dst, k)) })
 
 //@ func ControlHandler.HandlePong
-//@   props C08
+//@   props C08 C15
 //@   call io.CopyBuffer havoc
 //@   requires [hdr]  c.Src != nil && 0 <= h.Length && h.Length <= 125
 //@   ensures  [empty] h.Length == 0 ==> result == nil
 
 //@ func ControlHandler.Handle
-//@   props C08
+//@   props C08 C15
 //@   call ControlHandler.HandlePing havoc
 //@   call ControlHandler.HandlePong havoc
 //@   call ControlHandler.HandleClose havoc
@@ -959,21 +960,21 @@ func iteReader(c bool, a, b io.Reader) io.Reader {
 //@   assigns nothing
 
 //@ func GetWriter
-//@   props C18
+//@   props C18 C13 C17
 //@   requires [n] 0 <= n && n <= 1<<39 && (n <= 2 || n > 14) && op < 16 && DefaultWriteBuffer > 14 && DefaultWriteBuffer <= 1<<40
 //@   ensures  [new]  result != nil && result.dest == dest && result.state == state && result.op == op
 //@   ensures  [zero] result.n == 0 && !result.dirty && result.fseq == 0 && len(result.extensions) == 0 && !result.noFlush && result.err == nil
 //@   ensures  [inv]  invWriter(result)
 
 //@ func PutWriter
-//@   props C18
+//@   props C18 C13 C17
 //@   requires [room] w != nil && len(w.raw) > 14 && len(w.raw) <= 1<<47
 //@   ensures  [drop] w.dest == nil && w.n == 0 && w.err == nil && len(w.extensions) == 0 && !w.noFlush && !w.dirty && w.fseq == 0
 //@   assigns *w
 
 // writeFrame / WriteMessage: one frame, the caller's payload left untouched (C06, C17).
 //@ func writeFrame
-//@   props C06 C17
+//@   props C06 C17 C16
 //@   requires [w]    w != nil && op < 16 && len(p) <= 1<<47
 //@   cases side: s&ws.StateClientSide != 0 | !(s&ws.StateClientSide != 0)
 //@   cases len: int64(len(p)) <= 125 && int64(len(p)) <= 65535 | !(int64(len(p)) <= 125) && int64(len(p)) <= 65535 | !(int64(len(p)) <= 125) && !(int64(len(p)) <= 65535)
@@ -985,7 +986,7 @@ func iteReader(c bool, a, b io.Reader) io.Reader {
 //@   assigns outstream(w)
 
 //@ func WriteMessage
-//@   props C06 C17
+//@   props C06 C17 C16
 //@   requires [w]    w != nil && op < 16 && len(p) <= 1<<47
 //@   ensures  [len]   result == nil ==> outLen(w) == old(outLen(w))+specHdrLen(len(p), clientSide(s))+len(p)
 //@   ensures  [b0]    result == nil ==> outByte(w, old(outLen(w))) == 0x80|byte(op)
@@ -1008,7 +1009,7 @@ func iteReader(c bool, a, b io.Reader) io.Reader {
 //@   assigns w.noFlush
 
 //@ func NextReader
-//@   props C04 C16
+//@   props C04 C16 C05 C15
 //@   requires [src] r != nil && streamOK(r)
 //@   ensures  [err] result2 != nil ==> result1 == nil
 //@   ensures  [cut] !(inEnd(r)-old(inPos(r)) >= 2 && inEnd(r)-old(inPos(r)) >= ws.VSpecNeed(inByte(r, old(inPos(r))+1))) ==> result2 != nil
@@ -1062,7 +1063,7 @@ func ufIsCtlHandler(f FrameHandlerFunc, w io.Writer, s ws.State) bool { return t
 // and UTF-8. The handler itself is a black box here (its replies are the HandlePing/HandleClose
 // contracts); that it drains the frame it is given is assumed.
 //@ func readData
-//@   props C08
+//@   props C08 C04 C05 C07 C15
 //@   call ReadAll havoc
 //@   callsite Reader.NextFrame requires [wired] ufIsCtlHandler(rd.OnIntermediate, rw, s) && rd.Source == io.Reader(rw) && rd.State&^ws.StateFragmented == s&^ws.StateFragmented && rd.CheckUTF8 && !rd.SkipHeaderCheck
 //@   invoke callback:wsutil.FrameHandlerFunc requires [handler] ufIsCtlHandler(c_self, rw, s) && c_src == io.Reader(&rd)
@@ -1081,7 +1082,7 @@ func ufIsCtlHandler(f FrameHandlerFunc, w io.Writer, s ws.State) bool { return t
 //@   assigns instream(r)
 
 //@ func ReadMessage$1
-//@   props C04 C17
+//@   props C04 C17 C15 C16
 //@   requires [src] src != nil && streamOK(src) && 0 <= hdr.Length && hdr.Length <= 125
 //@   ensures [data]  result == nil ==> len(m[len(m)-1].Payload) == inEnd(src)-old(inPos(src)) && forall(0, len(m[len(m)-1].Payload), func(k int) bool { return m[len(m)-1].Payload[k] == inByte(src, old(inPos(src))+k) })
 //@   ensures [add]   result == nil ==> len(m) == old(len(m))+1 && m[len(m)-1].OpCode == hdr.OpCode && (fresh(m[len(m)-1].Payload) || len(m[len(m)-1].Payload) == 0)
